@@ -30,8 +30,17 @@ ALLOWED_AXIOMS = {"propext", "Classical.choice", "Quot.sound"}
 FLAG = {"GOOD": ".good", "UNKNOWN": ".unknown", "SUSPECT": ".suspect", "FAIL": ".fail", "MISSING": ".missing"}
 PYOP = {"add": ".add", "sub": ".sub", "mul": ".mul", "truediv": ".truediv", "pow": ".pow"}
 PIN_PROPS = {"C01": ["flag_codes"], "C04": ["flag_codes", "priorities"], "C19": ["cf_safe"], "C20": ["fx_ops"],
-             "C03": ["defaults_valid"], "C09": ["default_spike"], "C11": ["default_flat"], "C12": ["default_atten"],
-             "C14": ["default_location"]}
+             "C03": ["defaults_valid", "src_gross_range_test"], "C09": ["default_spike", "src_spike_test"], "C11": ["default_flat"],
+             "C12": ["default_atten"], "C14": ["default_location"], "C10": ["src_rate_of_change_test"]}
+# function bodies translated by harness/translate.py: (Lean theorem about the committed transcription, its binder list, its statement)
+SRC_FUNCS = {
+    "gross_range_test": ("IoosQc.NpSrc.C03_src_gross", "(inp : List V) (f : SeqArg) (s : Option SeqArg)",
+                         "IoosQc.Gen.gross_range_test inp f s = grossRange f s inp", "inp f s"),
+    "spike_test": ("IoosQc.NpSrc.C09_src_spike", "(inp : List V) (sus fail : Option Rat) (method : String)",
+                   "IoosQc.Gen.spike_test inp sus fail method = spikeTest method sus fail inp", "inp sus fail method"),
+    "rate_of_change_test": ("IoosQc.NpSrc.C10_src_roc", "(inp : List V) (ts : List Int) (thr : Rat)",
+                            "IoosQc.Gen.rate_of_change_test inp ts thr = rocTest inp ts thr", "inp ts thr"),
+}
 
 
 def _parse(rel):
@@ -185,7 +194,18 @@ def default_location():
     return [int(v) for v in d["bbox"]]
 
 
-EXTRACTORS = {"flag_codes": flag_codes, "priorities": priorities, "cf_safe": cf_safe, "fx_ops": fx_ops,
+def _src(name):
+    def f():
+        import translate
+        try:
+            return translate.translate(name)
+        except translate.Untranslatable:
+            return None
+    return f
+
+
+EXTRACTORS = {"src_gross_range_test": _src("gross_range_test"), "src_spike_test": _src("spike_test"),
+              "src_rate_of_change_test": _src("rate_of_change_test"), "flag_codes": flag_codes, "priorities": priorities, "cf_safe": cf_safe, "fx_ops": fx_ops,
               "defaults_valid": defaults_valid, "default_spike": default_spike, "default_flat": default_flat,
               "default_atten": default_atten, "default_location": default_location}
 
@@ -226,6 +246,12 @@ def lean_for(table: str, val) -> tuple[str, str]:
                 "theorem src_fxOps_ok : Pin.fxOpsOk srcFxOps = true := by decide\n"
                 "theorem src_fxOps (o : BinOp) : ∀ e ∈ srcFxOps, e.1 = Pin.BinOp.symbol o → e.2 = Pin.BinOp.pyOp o :=\n"
                 "  C20_pin_fxOps _ src_fxOps_ok o\n", "src_fxOps")
+    if table.startswith("src_"):
+        fn = table[4:]
+        thm, binders, stmt, args = SRC_FUNCS[fn]
+        return ("namespace IoosQc.Gen\nopen IoosQc.Np\n" + val + "end IoosQc.Gen\n"
+                f"theorem src_{fn}_same : @IoosQc.Gen.{fn} = @IoosQc.NpSrc.{fn} := rfl\n"
+                f"theorem src_{fn} {binders} : {stmt} := by\n  rw [src_{fn}_same]; exact {thm} {args}\n", f"src_{fn}")
     b = lambda x: "true" if x else "false"  # noqa: E731
     if table == "defaults_valid":
         return (f"theorem src_defaults_ok : (({b(val[0])}, {b(val[1])}) : Bool × Bool) = (Defaults.validStartInclusive, Defaults.validEndInclusive) := by decide\n"
@@ -250,46 +276,25 @@ def lean_for(table: str, val) -> tuple[str, str]:
     raise ValueError(table)
 
 
-def source_pin(prop: str) -> dict | None:
-    """Extract, generate, kernel-check.  None when the property has no pinned table."""
-    tables = PIN_PROPS.get(prop)
-    if not tables:
-        return None
-    res = {"tables": {}, "status": "ok", "source": str(REPO)}
-    parts, finals = [], []
-    for t in tables:
-        try:
-            val = EXTRACTORS[t]()
-        except Exception as e:  # noqa: BLE001  (unreadable / unparsable source file)
-            val = None
-            res.setdefault("notes", []).append(f"{t}: {type(e).__name__}: {e}")
-        if val is None:
-            res["tables"][t] = "unavailable (the source no longer has the literal shape the translator reads)"
-            continue
-        res["tables"][t] = json.loads(json.dumps(val))
-        src, final = lean_for(t, val)
-        parts.append(src)
-        finals.append(final)
-    if not parts:
-        res["status"] = "unavailable"
-        return res
+def _kernel_check(prop: str, tag: str, parts, finals) -> dict:
+    """Write the generated Lean file, let the kernel check it (cached by content), return status / axioms / log."""
     text = ("/- generated by harness/extract.py from the current source of ioos_qc; checked with `lake env lean` -/\n"
-            "import IoosQc.Theorems.SourcePin\nopen IoosQc\n\n" + "\n".join(parts) + "\n" + "".join(f"#print axioms {f}\n" for f in finals))
+            "import IoosQc.Theorems.SourcePin\nimport IoosQc.Theorems.NpSrc\nopen IoosQc\n\n" + "\n".join(parts) + "\n"
+            + "".join(f"#print axioms {f}\n" for f in finals))
     sha = hashlib.sha1(text.encode()).hexdigest()[:16]
-    # the key also covers the compiled pin library
-    olean = LEAN / ".lake/build/lib/lean/IoosQc/Theorems/SourcePin.olean"
-    stamp = hashlib.sha1(olean.read_bytes()).hexdigest()[:12] if olean.exists() else "nobuild"
+    # the key also covers the compiled libraries the file is checked against
+    stamp = "".join(hashlib.sha1(o.read_bytes()).hexdigest()[:8] if o.exists() else "nobuild"
+                    for o in (LEAN / ".lake/build/lib/lean/IoosQc/Theorems/SourcePin.olean", LEAN / ".lake/build/lib/lean/IoosQc/Theorems/NpSrc.olean"))
     d = LEAN / ".lake" / "pins"
     d.mkdir(parents=True, exist_ok=True)
-    f = d / f"{prop}_{sha}.lean"
-    cache = d / f"{prop}_{sha}_{stamp}.json"
-    res["file"] = str(f.relative_to(ROOT))
+    f = d / f"{prop}{tag}_{sha}.lean"
+    cache = d / f"{prop}{tag}_{sha}_{stamp}.json"
     if cache.exists():
         try:
             c = json.loads(cache.read_text())
-            res.update(c)
-            res["cached"] = True
-            return res
+            c["cached"] = True
+            c["file"] = str(f.relative_to(ROOT))
+            return c
         except Exception:  # noqa: BLE001
             pass
     f.write_text(text)
@@ -299,11 +304,70 @@ def source_pin(prop: str) -> dict | None:
     for m in re.finditer(r"depends on axioms: \[([^\]]*)\]", out):
         axioms |= {x.strip() for x in m.group(1).replace("\n", " ").split(",") if x.strip()}
     ok = p.returncode == 0 and axioms <= ALLOWED_AXIOMS and "sorry" not in out
-    upd = {"status": "ok" if ok else "failed", "theorems": finals, "axioms": sorted(axioms), "log": "" if ok else out[-1500:]}
-    if len(parts) < len(tables) and ok:
-        upd["status"] = "ok (partly unavailable)"
+    upd = {"ok": ok, "axioms": sorted(axioms), "log": "" if ok else out[-1500:]}
     cache.write_text(json.dumps(upd))
-    res.update(upd)
+    upd["file"] = str(f.relative_to(ROOT))
+    return upd
+
+
+def source_pin(prop: str) -> dict | None:
+    """Extract, generate, kernel-check.  None when the property has no pinned table.
+
+    Literal tables (codes, priorities, character classes, operator table, defaults): a table that is read but does not satisfy
+    its admissibility predicate is a broken proof obligation ("failed").  Translated function bodies (`src_*`): the kernel
+    checks that the definition regenerated from the current source IS the committed transcription the theorems are about;
+    if it is not (the body was rewritten) the pin is "reshaped" — nothing is claimed from it for this run, exactly as when the
+    translator cannot read the source at all, and the tie rests on the correspondence run."""
+    tables = PIN_PROPS.get(prop)
+    if not tables:
+        return None
+    res = {"tables": {}, "status": "ok", "source": str(REPO), "theorems": [], "axioms": []}
+    parts, finals, srcs = [], [], []
+    for t in tables:
+        try:
+            val = EXTRACTORS[t]()
+        except Exception as e:  # noqa: BLE001  (unreadable / unparsable source file)
+            val = None
+            res.setdefault("notes", []).append(f"{t}: {type(e).__name__}: {e}")
+        if val is None:
+            res["tables"][t] = "unavailable (the source no longer has the shape the translator reads)"
+            continue
+        src, final = lean_for(t, val)
+        if t.startswith("src_"):
+            res["tables"][t] = f"{len(val.splitlines())} lines translated"
+            srcs.append((t, src, final))
+        else:
+            res["tables"][t] = json.loads(json.dumps(val))
+            parts.append(src)
+            finals.append(final)
+    missing = len(tables) - len(parts) - len(srcs)
+    axioms = set()
+    if parts:
+        c = _kernel_check(prop, "", parts, finals)
+        res["file"] = c["file"]
+        res["cached"] = bool(c.get("cached"))
+        axioms |= set(c["axioms"])
+        if c["ok"]:
+            res["theorems"] += finals
+        else:
+            res["status"] = "failed"
+            res["log"] = c["log"]
+    for t, src, final in srcs:
+        c = _kernel_check(prop, "_" + t, [src], [final])
+        if c["ok"]:
+            res["theorems"].append(final)
+            axioms |= set(c["axioms"])
+            res["tables"][t] += f"; kernel-checked equal to IoosQc.NpSrc.{t[4:]} ({c['file']})"
+        else:
+            missing += 1
+            res["tables"][t] = ("reshaped: the definition regenerated from the current source is not the committed transcription "
+                                "IoosQc.NpSrc." + t[4:] + " (nothing is claimed from this pin for this run)")
+            res.setdefault("notes", []).append(f"{t}: {c['log'][-300:]}")
+    res["axioms"] = sorted(axioms)
+    if not res["theorems"] and res["status"] == "ok":
+        res["status"] = "unavailable"
+    elif missing and res["status"] == "ok":
+        res["status"] = "ok (partly unavailable)"
     return res
 
 
